@@ -24,6 +24,7 @@ def run(run_, tier):
     samplers_stage.stage_loop(run_, "C15", it)
     from . import c14
     c14.parallel(run_, it, prop="C15")
+    c14.proxy_progress_bar(run_, it)
     # rows not reached before the interrupt keep the allocation's fill value (NaN / declared default), in memory and memory-mapped alike
     samplers_stage.allocation(run_, it)
     run_.extraction_drops.extend(sorted(it.dropped))
